@@ -349,6 +349,34 @@ func (k *Kernel) YieldT(class, ident, tie string) {
 	if spin {
 		k.spinReported = true
 	}
+	k.mu.Unlock()
+	cls := class
+	if i := strings.IndexByte(cls, '@'); i > 0 {
+		cls = cls[:i]
+	}
+	if spin {
+		v := &Violation{Property: "C09", Class: "spin", Key: map[string]string{"where": yieldBucket(cls)},
+			Detail: fmt.Sprintf("more than %d yield points within one scheduler step, last at %s", YieldBudget, key)}
+		k.Violate(v)
+		if k.OnFatal != nil {
+			k.OnFatal(v)
+		}
+	}
+	if k.Strict && strictClass(class) {
+		// strict scheduling: every seam hands control back to the driver, which releases
+		// one goroutine at a time in (time, site identity) order. The visit is counted - and a
+		// stall decided - only after that: of two goroutines that reach one seam at one
+		// instant, which is "the n-th visit" must not depend on which of them got there first.
+		ch := make(chan struct{})
+		ek := "go:" + key
+		if tie != "" {
+			ek += "#" + tie
+		}
+		// same seam, same instant, same tie: oldest goroutine first
+		k.atSeq(k.Now(), ek, k.tieSeq(class), func() { close(ch) })
+		<-ch
+	}
+	k.mu.Lock()
 	n := k.visits[key] + 1
 	k.visits[key] = n
 	var park int64 = -1
@@ -375,37 +403,12 @@ func (k *Kernel) YieldT(class, ident, tie string) {
 		}
 	}
 	k.mu.Unlock()
-	cls := class
-	if i := strings.IndexByte(cls, '@'); i > 0 {
-		cls = cls[:i]
-	}
 	k.Stats.mu.Lock()
 	k.Stats.Yields[yieldBucket(cls)]++
 	if park >= 0 {
 		k.Stats.Parks[yieldBucket(cls)]++
 	}
 	k.Stats.mu.Unlock()
-	if spin {
-		v := &Violation{Property: "C09", Class: "spin", Key: map[string]string{"where": yieldBucket(cls)},
-			Detail: fmt.Sprintf("more than %d yield points within one scheduler step, last at %s", YieldBudget, key)}
-		k.Violate(v)
-		if k.OnFatal != nil {
-			k.OnFatal(v)
-		}
-	}
-	if park < 0 && k.Strict && strictClass(class) {
-		// strict scheduling: every seam hands control back to the driver, which releases
-		// one goroutine at a time in (time, site identity) order
-		ch := make(chan struct{})
-		ek := "go:" + key
-		if tie != "" {
-			ek += "#" + tie
-		}
-		// same seam, same instant, same tie: oldest goroutine first
-		k.atSeq(k.Now(), ek, k.tieSeq(class), func() { close(ch) })
-		<-ch
-		return
-	}
 	if park < 0 {
 		return
 	}
